@@ -3,6 +3,8 @@
  *   source s://h/a/b   base s://h/a/b/c  ->  ""   (resolves to the base itself)
  *   source s://h/a/b/c base s://h/a/b    ->  "c"  (resolves to s://h/a/c)
  *   source s://h/a     base s://h/a/b    ->  ""   ; source s://h/a/b/ base s://h/a/b -> "./" (resolves to s://h/a/)
+ * and it stepped over the last segment of the source although the base has a query the source lacks:
+ *   source s://h/a/b   base s://h/a/b?q  ->  ""   (resolves to s://h/a/b?q)
  * build: cc -I/repo/include c10_prefix_walk.c -L/repo/_build -luriparser -Wl,-rpath,/repo/_build -o c10 && ./c10
  * exit 1 = defect present */
 #include <uriparser/Uri.h>
@@ -33,7 +35,9 @@ int main(void) {
 	static const char *cases[][2] = {
 		{"s://h/a/b", "s://h/a/b/c"}, {"s://h/a/b/c", "s://h/a/b"}, {"s://h/a", "s://h/a/b"}, {"s://h/a/b/", "s://h/a/b"},
 		{"s://h/a/b", "s://h/a/b"}, {"s://h/a/", "s://h/a/b"}, {"s://h/a/b/c/d", "s://h/a/x/y"}, {"s://h/x", "s://h/a/b/c/d"},
-		{"s://h/a/b?q", "s://h/a/b"}, {"s://h/a/", "s://h/a/"}, {"s://h/a//c", "s://h/a//d"}, {"s://h/a/b", "s://h/a/"} };
+		{"s://h/a/b?q", "s://h/a/b"}, {"s://h/a/", "s://h/a/"}, {"s://h/a//c", "s://h/a//d"}, {"s://h/a/b", "s://h/a/"},
+		/* an empty reference path inherits the query of the base (second defect, fixed separately) */
+		{"s://h/a/b", "s://h/a/b?q"}, {"s://h/a/b#f", "s://h/a/b?q"}, {"s://h/a/c:d", "s://h/a/c:d?q"}, {"s://h/a/b?x", "s://h/a/b?q"} };
 	int bad = 0;
 	unsigned i;
 	for (i = 0; i < sizeof cases / sizeof cases[0]; i++) {
